@@ -4,7 +4,7 @@ patch=$1; shift
 props=${*:-$(python3 -c "import json;print(' '.join(c['property_id'] for c in json.load(open('/verif/MANIFEST.json'))['checks']))")}
 cd /repo || exit 2
 git diff --quiet || { echo "/repo not clean"; exit 2; }
-git apply "$patch" || { echo "patch does not apply"; exit 2; }
+git apply "$patch" 2>/dev/null || git apply -C1 "$patch" || { echo "patch does not apply"; exit 2; }
 cd /verif
 for p in $props; do
   out=$(bin/jsonsa check -property $p -tier quick -repo /repo -verif /tmp/seedrun 2>&1); r=$?
